@@ -206,7 +206,10 @@ class Batch:
                     start = nxt + nworkers
                 else:
                     start = last_idx + nworkers
-                tries += 1
+                lr = self.runs.get(last_idx) if last_idx is not None else None
+                after_pf = bool(lr and lr.get("crashed") and lr.get("violations") and all(v["cls"].startswith("AFTER_MPROTECT_FAULT_") for v in lr["violations"]))
+                if not after_pf:    # a crash that follows an injected mprotect refusal is expected of the unchanged library
+                    tries += 1
                 if tries > 12:   # a build that crashes again and again has shown enough; each restart costs a warm-up
                     break
 
